@@ -111,7 +111,10 @@ prop("C14", "A reset or pooled context behaves like a new one", [
 
 prop("C15", "A failing rule stops the decode and the failure is reported", [
     ("user_error_is_last_call", "user_error_is_last_call", "FULL STATEMENT (calls): for every program and fuel, with user functions that report their own call number, a decode that returns a user function's error made no call after the failing one -- no callback, getter, modifier or helper of any later rule, iteration or case"),
-    ("every_rule_keeps_error_channel_sound", "follow_sound", "the induction behind it: from a context whose ctx.Err is nil or internal, every rule leaves ctx.Err free of signals and holding a user error only if that call was the last; nil / signal results leave it calm"),
+    ("user_error_in_ctx_is_returned", "user_error_in_ctx_is_returned", "NO MASKING: whatever construct a failing call is buried in (loop, switch, block, modifier chain, helper guard), if ctx.Err holds a user function's error when a rule ends, the rule returns exactly that error"),
+    ("decode_returns_user_error", "decode_returns_user_error", "and so does the decode"),
+    ("helper_failure_fails_the_rule", "cond_helper_failure", "a condition helper that reports a failure through ctx.Err fails its rule with it"),
+    ("every_rule_keeps_error_channel_sound", "follow_sound", "the induction behind it: from a context whose ctx.Err is nil or internal, every rule leaves ctx.Err free of signals and holding a user error only if that call was the last; every result other than a user error leaves it calm"),
     ("harness_functions_are_honest", "testU_honest", "the hypothesis holds of the user functions the correspondence runs"),
     ("injected_failure_is_last_call", "injected_failure_is_last_call", "hence for every job of the harness"),
     ("success_leaves_no_user_error", "success_leaves_no_user_error", "a successful decode leaves no error behind"),
